@@ -111,16 +111,37 @@ _uisnan = np.frompyfunc(_isnan1, 1, 1)
 _uisinf = np.frompyfunc(_isinf1, 1, 1)
 
 
+def order_statistics(v):
+    """sorted copy of v as fresh variables s_0 <= ... <= s_{n-1} defined by counting constraints (cheaper for the solver than a
+    sorting network of nested If-terms): s_k is one of the v_i, at least k+1 values are <= s_k and at least n-k are >= s_k."""
+    c = sym.cur()
+    n = len(v)
+    ts = [sym.term(e) for e in v]
+    c.uf_count += 1
+    ss = [z3.Real("ord%d_%d" % (c.uf_count, k)) for k in range(n)]
+    one, zero = z3.IntVal(1), z3.IntVal(0)
+    cons = [ss[k] <= ss[k + 1] for k in range(n - 1)]
+    for k in range(n):
+        cons.append(z3.Sum([z3.If(t <= ss[k], one, zero) for t in ts]) >= k + 1)
+        cons.append(z3.Sum([z3.If(t >= ss[k], one, zero) for t in ts]) >= n - k)
+        cons.append(z3.Or(*[ss[k] == t for t in ts]))
+    c.assume_t(z3.And(*cons))
+    return [Sym(x) for x in ss]
+
+
 def sym_quantile(values, q):
     """numpy's default ('linear') quantile on a 1-d list of cells via a sorting network of If-terms."""
     v = list(values)
     n = len(v)
     if n == 0:
         return math.nan
-    for i in range(n):
-        for j in range(n - 1 - i):
-            lo, hi = smin(v[j], v[j + 1]), smax(v[j], v[j + 1])
-            v[j], v[j + 1] = lo, hi
+    if n >= 99 and all(isinstance(e, Sym) or sym.is_num(e) for e in v) and not any(is_special(e) for e in v):
+        v = order_statistics(v)
+    else:
+        for i in range(n):
+            for j in range(n - 1 - i):
+                lo, hi = smin(v[j], v[j + 1]), smax(v[j], v[j + 1])
+                v[j], v[j + 1] = lo, hi
     if not (0 <= q <= 1):
         raise ValueError("Quantiles must be in the range [0, 1]")
     pos = q * (n - 1)
@@ -305,6 +326,21 @@ def install():
 
     nanops._ensure_numeric = _ensure_numeric
 
+    # pandas: a float (n, 1) array can be assigned to a column; an object (n, 1) array trips maybe_convert_objects.
+    import pandas.core.construction as pcc
+    import pandas.core.frame as pframe
+
+    o["sanitize_array"] = pcc.sanitize_array
+
+    def sanitize_array(data, index, dtype=None, copy=False, *, allow_2d=False):
+        if isinstance(data, np.ndarray) and data.dtype == object and data.ndim == 2 and data.shape[1] == 1:
+            data = data[:, 0]
+        return o["sanitize_array"](data, index, dtype=dtype, copy=copy, allow_2d=allow_2d)
+
+    pcc.sanitize_array = sanitize_array
+    if hasattr(pframe, "sanitize_array"):
+        pframe.sanitize_array = sanitize_array
+
     # scipy.stats.norm.ppf(q, loc, scale) = loc + scale * ppf(q)   (q concrete)
     from scipy import stats
 
@@ -344,6 +380,12 @@ def uninstall():
     numpy.max = numpy.amax = o["amax"]
     nanops._ensure_numeric = o["_ensure_numeric"]
     stats.norm.ppf = o["norm_ppf"]
+    import pandas.core.construction as pcc
+    import pandas.core.frame as pframe
+
+    pcc.sanitize_array = o["sanitize_array"]
+    if hasattr(pframe, "sanitize_array"):
+        pframe.sanitize_array = o["sanitize_array"]
     _installed[0] = False
 
 
